@@ -6,12 +6,16 @@ SPEC = {
     "bins": ["c01"],
     "model_targets": ["Pat/C01Check.vo"],
     "proof_targets": ["Pat/MatcherProofs.vo", "Pat/ModifiersProofs.vo", "Pat/MatchListProofs.vo",
-                      "Pat/C01CheckProofs.vo", "Pat/Base64Proofs.vo", "Pat/ChainProofs.vo"],
+                      "Pat/C01CheckProofs.vo", "Pat/Base64Proofs.vo", "Pat/ChainProofs.vo", "Pat/PipelineProofs.vo", "Pat/AtomsProofs.vo", "Pat/PipelineB64Proofs.vo"],
     "assumptions": [
         "the specification of occurrences (Pat/Sem.v, Pat/Modifiers.v) is written from text_patterns.md, hex_patterns.md, regexps.md, differences.md; "
         "where they are silent it accepts the implementation: the neighbouring character of a wide string for fullword, which of several genuine "
         "lengths a regexp reports, assertions inside wide regexps (not generated), base64 occurrences whose 4-character window does not decode",
-        "atom extraction, the Thompson/PikeVM/FastVM engines, Teddy and Aho-Corasick are not modelled: they are tied to the specification only by the "
+        "literal family (Literal, LiteralWithMask, Xor, Base64*): handle_atom_match / verify_* are modelled (Pat/Pipeline.v) and proved equal to the "
+        "reference under atoms_ok, which K stream (d) evaluates on the REAL sub-patterns and atoms of the compiled rules (hook Rules::verif_c01_dump); "
+        "the search automaton is assumed to report exactly the atom occurrences (hits_exact: any order); for Base64* the link model -> specification "
+        "is stated, not proved (the 9-entry table is)",
+        "the Thompson/PikeVM/FastVM engines, chains at run time, Teddy and Aho-Corasick are not modelled: they are tied to the specification only by the "
         "differential stream (b) (every reported match checked by genuine_b, every required start looked for)",
         "Vec growth policy and slice::binary_search_by are trusted std behaviour (modelled literally; search_std_eq proves the abstraction used)",
         "completeness is demanded for starts whose genuine lengths are all within re::DEFAULT_SCAN_LIMIT and while the pattern has fewer than "
@@ -31,10 +35,15 @@ RULE = ("stream (a), ~20%: random operation sequences on the real MatchList / Pa
         "repetitions, /i /s, nocase/wide/ascii/fullword -- scanned over buffers assembled from the pattern's own instances, near-misses (bit flipped, "
         "case flipped, truncated, xor'ed, wide/ascii mixed), overlaps, occurrences at offset 0 and at the last byte, with 4 different conditions that "
         "depend on the occurrences, optionally 70 extra literals in the rule set (Aho-Corasick instead of Teddy) and max_matches_per_pattern 1..3. "
+        "stream (c), ~30%: directed shapes (jump + masked byte in both directions, rule sets of 1..90 literals with occurrences at chosen offsets "
+        "mod 16, masked literals of 15..66 bytes with one-byte near-misses). stream (d), ~15%: text patterns (every modifier family) and flat hex "
+        "patterns with the real sub-patterns and atoms dumped from the compiled rules: the dump must equal the model of c_literal_pattern, atoms_ok "
+        "must hold on the real atoms, and the pipeline model run on them must reproduce the reported list exactly (anchored `$a at N` included). "
         "Non-trivial: at least one reported match; distinct by (pattern source, buffer).")
 
 
-SYMPTOMS = [(1, "panic-or-bytes"), (2, "unsound"), (4, "order"), (8, "missed"), (16, "over-limit"), (32, "model")]
+SYMPTOMS = [(1, "panic-or-bytes"), (2, "unsound"), (4, "order"), (8, "missed"), (16, "over-limit"), (32, "model"),
+            (64, "sub-patterns-differ-from-compile-model"), (128, "atoms_ok-false-on-real-atoms"), (256, "pipeline-model-differs")]
 
 # root-cause hints computed by the harness from the pattern's AST, most specific first (the defects behind
 # them are repaired: a case classified by one of them is a regression and is reported as a VIOLATION)
@@ -134,7 +143,8 @@ def c01_k(run, drv, args, name, timeout=3000, max_report=12):
     if konly:
         s, i = konly[0]
         case = drv.load_case(casedir, s, i)
-        info["broken"].append((name, f"model and implementation disagree on {len(konly)} case(s) where the specification still holds; first: {json.dumps(case)[:1500]}"))
+        what = diagnose(drv, casedir, konly[:1]).get((s, i), "?")
+        info["broken"].append((name, f"model and implementation disagree on {len(konly)} case(s) where the specification still holds ({what}); first: {json.dumps(case)[:1500]}"))
     info["k_disagreements"] = len(res["k_fail"])
     info["s_violations"] = len(res["s_fail"])
     return info
@@ -178,8 +188,10 @@ MANIFEST = {
                    "(offset,length,xor key), strictly ascending unique offsets and completeness of starts within the documented limits. "
                    "The implementation is tied to this on every run: the MatchList model must reproduce the real data structure on random "
                    "operation sequences, and the real Scanner's output for generated (pattern, buffer) pairs is checked by the proven checker."),
-    "level_note": ("Atoms, regexp engines (FastVM/PikeVM), Teddy/Aho-Corasick, chains at run time and base64 verification are NOT modelled; they are "
-                   "covered only by the differential stream against the proven reference (quick: ~560 scans, thorough: ~19000). "
+    "level_note": ("For the literal family (Literal, LiteralWithMask, Xor, anchored) the scan pipeline is modelled and proved equal to the reference "
+                   "under atoms_ok, evaluated on the real atoms (pipeline_literal_family, compile_text_spec); for Base64* the pipeline model is compared "
+                   "exactly but its link to the specification is only stated. Regexp engines (FastVM/PikeVM), Teddy/Aho-Corasick and chains at run time "
+                   "are NOT modelled; they are covered only by the differential streams against the proven reference. "
                    "Which of several genuine lengths a regexp reports, wide-fullword neighbours and undecodable base64 windows are accepted as "
                    "undocumented. Buffers are <= 300 bytes (DEFAULT_SCAN_LIMIT is stated in the spec but never reached); repetitions nested inside "
                    "repetitions are bounded in generated regexps. Trusted: Coq kernel, gen_patconsts.py, the harness and its YARA printer, the hook."),
